@@ -3,7 +3,7 @@
 import json, subprocess, sys
 
 HOOK_COMMITS = ["e2c5f5d", "a9e1325"]
-FIX_COMMITS = ["92d05d9","2f27094","fb921a5","7155879","c3211c8","1a593ad","1bc8a7f","47c46e8","98166ae"]
+FIX_COMMITS = ["92d05d9","2f27094","fb921a5","7155879","c3211c8","1a593ad","1bc8a7f","47c46e8","98166ae","adef25d"]
 
 E1 = "E1 bounded-exhaustive configuration enumeration vs Go reference model"
 E2 = "E2 explicit-state search over API histories on real objects (replay-built successors)"
